@@ -26,6 +26,7 @@ FIXED=[
  ("C08","left recursion goes undetected","validate.go isLeftRecursive","left recursion undetected when the recursive reference follows a multi-term earlier alternative, a nullable or lookahead prefix, or goes through another production/union in those positions, e.g. `A = \"t\" \"u\" | A \"e\"`"),
  ("C18","Unquote mangles","map.go unquote","Unquote turned \"\\xff\" into U+00FF and interpreted escapes inside back-quoted strings"),
  ("C19","EBNF printing panics on anonymous struct","ebnf.go buildEBNF","Build panicked (slice bounds out of range [:1]) rendering the left-recursion error for a cycle through an anonymous struct field"),
+ ("C06","Elide() of an unknown token type","parser.go Build / getElidedTypes","Build accepted Elide(\"Nope\") and every Parse*/ParseString call on the built parser then panicked in getElidedTypes"),
  ("C19","Parseable with a value receiver","grammar.go parseType","Build panicked (reflect: Elem of invalid type) for a field or root type that implements Parseable with a value receiver (found by the static-type cases added to C19 after an independent reviewer's remark)"),
  ("C19","modifier, capture or negation with no operand","grammar.go parseModifier/parseCapture/parseNegation","Build panicked (value \"<nil>\") on tags `@`, `?`, `!`, `~`, `\"a\" @`, `! !`, parser:\"@\""),
  ("C06","capturing an empty match into a lexer.Token","nodes.go setField","`Tok lexer.Token \"@(\\\"a\\\"?)\"` on input without the optional token: index out of range [0] in setField (witness grammar W4)"),
